@@ -2,6 +2,7 @@ package constraint
 
 import (
 	"net/mail"
+	"strings"
 
 	jschema "github.com/jsightapi/jsight-schema-go-library"
 	"github.com/jsightapi/jsight-schema-go-library/bytes"
@@ -41,22 +42,43 @@ func (Email) Validate(email bytes.Bytes) {
 		panic(errors.ErrEmptyEmail)
 	}
 
-	char := email[0] // first char
-	if char == ' ' || char == '<' {
-		panic(errors.Format(errors.ErrInvalidEmail, email.String()))
-	}
-
-	char = email[len(email)-1] // last char
-	if char == ' ' || char == '>' {
-		panic(errors.Format(errors.ErrInvalidEmail, email.String()))
-	}
-
 	emailStr := email.String()
 
-	_, err := mail.ParseAddress(emailStr)
-	if err != nil {
+	a, err := mail.ParseAddress(emailStr)
+	if err != nil || !isAddrSpec(emailStr, a) {
 		panic(errors.Format(errors.ErrInvalidEmail, emailStr))
 	}
+}
+
+// isAddrSpec reports whether s, which mail.ParseAddress has parsed to a, is nothing
+// but an e-mail address (addr-spec = local-part "@" domain).
+//
+// mail.ParseAddress parses an RFC 5322 address, so besides the addr-spec it admits
+// a display name with angle brackets ("Barry Gibbs <bg@example.com>"), a comment
+// ("bg@example.com (Barry Gibbs)"), the syntax of a group ("friends: bg@example.com;")
+// and spaces and tabs before the addr-spec, after its "@" and after the addr-spec.
+// With any of these s doesn't end with "@" domain or doesn't begin with the local
+// part.
+func isAddrSpec(s string, a *mail.Address) bool {
+	if a.Name != "" {
+		return false
+	}
+
+	// A domain doesn't contain "@", a local part can ("a@b"@example.com).
+	at := strings.LastIndexByte(a.Address, '@')
+	if at == -1 {
+		return false
+	}
+	localPart, atDomain := a.Address[:at], a.Address[at:]
+
+	if !strings.HasSuffix(s, atDomain) {
+		return false
+	}
+	s = strings.TrimSuffix(s, atDomain)
+
+	// What is left is the local part, possibly after spaces and tabs. a.Address has
+	// it as it is written (dot-atom) or without the quotes (quoted string).
+	return s == localPart || strings.HasPrefix(s, `"`)
 }
 
 func (Email) ASTNode() jschema.RuleASTNode {
